@@ -70,4 +70,10 @@ off), so the orientation of an intermediate basis cannot leak into the signs of 
 theorem src_pca_keeps_sign_convention : Gen.pcaToSVD.lookup "flip_signs" = none ∧ Gen.svdWrapperToSVD.lookup "flip_signs" = some "self.flip_signs" := by
   decide
 
+/-- source obligation: both whiteners of a cross-set model are told the model's sample and feature dimension names -/
+theorem src_whiteners_get_dimension_names :
+    Gen.crossWhitener1.lookup "sample_name" = some "sample_name" ∧ Gen.crossWhitener2.lookup "sample_name" = some "sample_name" ∧
+    Gen.crossWhitener1.lookup "feature_name" = some "feature_name[0]" ∧ Gen.crossWhitener2.lookup "feature_name" = some "feature_name[1]" := by
+  decide
+
 end C07
